@@ -58,7 +58,20 @@ func c12faultRun(t *testing.T, sc map[string]any) map[string]any {
 				tg.stopHealthChecks()
 			}
 			s.router = NewRouter(s.statePath)
+			// what a kill DURING this start would leave: the state file is read at every file-system step a snapshot
+			// makes while the restore runs (a start-up must not rewrite the file it is restoring from, let alone with
+			// a configuration that is not complete yet)
+			during := []any{}
+			oldEv := verifEventFn
+			verifEventFn = func(kind string, args ...any) {
+				if kind == "snap-create" || kind == "snap-write" || kind == "snap-rename" {
+					during = append(during, c12Parse(os.ReadFile(s.statePath)))
+				}
+				oldEv(kind, args...)
+			}
 			err := s.router.RestoreLastSavedState()
+			verifEventFn = oldEv
+			rec["during"] = during
 			rec["result"] = vErrName(err)
 		} else {
 			var old syscall.Rlimit
